@@ -191,6 +191,9 @@ def check_anonymize_value(ctx, rep, cl, focus=("flow", "lookup", "encoders", "co
             continue
         rep.ob(cl + ".context-restored", fn.name, True, "head + <pseudonym> + tail", w, nontrivial=False)
         anon = parts[1]
+        rep.ob(cl + ".reserved-checked-first", fn.name, path.truth(("compare", ("in",), (av.V, av.reserved))) is False and path.truth(av.V) is True,
+               "a pseudonym is returned on a path that has not established `value not in reserved_words` and `value non-empty` (%s): a reserved word that is already a lookup key (e.g. as the plaintext of a $9$ secret) would be replaced" % path.describe()[:160], w,
+               key=cl + ".reserved-checked-first|_anonymize_value")
         leak = secret_occurrences(av, anon)
         rep.ob(cl + ".pseudonym-secret-free", fn.name, not leak,
                "pseudonym term %s depends on secret content through %s (allowed: lookup key, membership, format class, md5 salt length)" % (show(anon)[:160], leak), w, key=cl + ".pseudonym-secret-free|_anonymize_value")
